@@ -62,7 +62,7 @@ Section ReparseThm.
   (** the encoder as it is *)
   Theorem parse_encode_parse_current : forall o t ms st,
     opts_ok o = true -> bytes_ok t = true -> parse_strict fparse t = POk ms st ->
-    forall m, In m ms -> restricted false quote_plain (m_body m) = true ->
+    forall m, In m ms -> restricted true quote_plain (m_body m) = true ->
     exists m' st', parse_strict fparse (encode_msg ffmt quote o m) = POk [m'] st' /\ msg_eqv narrow32 m m'.
   Proof.
     intros o t ms st Ho Ht P m Hm R.
